@@ -186,6 +186,24 @@ int main(void)
 			live_cb += trk_live - t;
 			if (ok) printf("1 freed=%s ## ", freed_log); else printf("0 ## ");
 			dump_tree(cb); printf(" live=%ld\n", live_cb);
+		} else if (n == 3 && (!strcmp(w[0], "getpfx") || !strcmp(w[0], "delpfx")) && (kl = hc_unhex(w[1], &k)) >= 0) {
+			/* the key argument ALIASES the key stored inside an object, with a shorter length:
+			 * look up / delete the first <n> bytes of the stored key through the object's own buffer */
+			struct Obj *o = cbtree_lookup(cb, k, kl);
+			long pl = atol(w[2]);
+			const void *kp = (o && pl <= (long)o->len) ? (const void *)o->key : (const void *)k;
+			if (pl > kl) pl = kl;
+			if (w[0][0] == 'g') {
+				struct Obj *r = cbtree_lookup(cb, kp, pl);
+				if (r) printf("#%d\n", r->id); else puts("nil");
+			} else {
+				bool ok;
+				freed_len = 0; freed_log[0] = 0;
+				ok = cbtree_delete(cb, kp, pl);
+				live_cb += trk_live - t;
+				if (ok) printf("1 freed=%s ## ", freed_log); else printf("0 ## ");
+				dump_tree(cb); printf(" live=%ld\n", live_cb);
+			}
 		} else if (n == 2 && !strcmp(w[0], "freeret")) {
 			free_ret = atoi(w[1]) != 0;
 			puts("ok");
